@@ -136,6 +136,8 @@ class TemporalDifferenceLearning(Learns):
         @lru_cache(maxsize=None)
         def policy(s):
             try:
+                if s not in q:
+                    raise KeyError(s)
                 action_vals = q[s]
                 maxq = max(action_vals.values())
                 max_actions = [a for a in action_vals.keys() if action_vals[a] == maxq]
